@@ -7,6 +7,9 @@ import (
 	"encoding/json"
 	"fmt"
 	"math/rand"
+	"os"
+	"os/exec"
+	"path/filepath"
 	"strings"
 	"sync"
 	"time"
@@ -308,7 +311,17 @@ func forestScenarios(rng *rand.Rand, sample int) []refScenario {
 					sc.Config = append(sc.Config, cfgEntry{Scope: "local", Section: "refgroup", Sub: sy, Key: r[0], Value: sp(r[1])})
 				}
 			}
-			switch n % 4 {
+			if n%3 == 0 {
+				// children before their parents in the configuration file
+				for i, j := 0, len(sc.Config)-1; i < j; i, j = i+1, j-1 {
+					sc.Config[i], sc.Config[j] = sc.Config[j], sc.Config[i]
+				}
+			}
+			switch n % 6 {
+			case 4:
+				sc.Opts = []refOpt{{Pol: "include", Kind: "group", Pat: "p.x.z", Spelling: n}}
+			case 5:
+				sc.Opts = []refOpt{{Pol: "include", Kind: "prefix", Pat: "refs"}, {Pol: "exclude", Kind: "group", Pat: "p.x.z"}}
 			case 1:
 				sc.Opts = []refOpt{{Pol: "include", Kind: "group", Pat: "p"}}
 			case 2:
@@ -354,6 +367,9 @@ func checkC06(c *Ctx) {
 		ml = 5
 	}
 	runRefsMC(c, "fold", refsMCcfg("fold", ml+1, depth, []string{"a"}, false, false), nil)
+	// the same fold for option lists of any length: inductive invariant by Apalache (base + step)
+	apalacheCheck(c, "RefSelApa", "base", "--init=Init", "--inv=IndInv", "--length=0")
+	apalacheCheck(c, "RefSelApa", "step", "--init=IndInit", "--inv=IndInv", "--length=1")
 	gd := 2
 	if !quick(c) {
 		gd = 3
@@ -420,4 +436,30 @@ func init() {
 	checks["C06"] = checkC06
 	checks["C07"] = checkC07
 	replays["filter"] = replayFilter
+}
+
+// apalacheCheck runs one Apalache obligation on a copy of a specification module.
+func apalacheCheck(c *Ctx, module, what string, args ...string) {
+	dir, _ := os.MkdirTemp(c.Scratch, "apa-")
+	defer os.RemoveAll(dir)
+	spec, err := os.ReadFile(filepath.Join(tlcrun.SpecDir, module+".tla"))
+	if err != nil {
+		Infra("%v", err)
+	}
+	os.WriteFile(filepath.Join(dir, module+".tla"), spec, 0o644)
+	t0 := time.Now()
+	full := append([]string{"300", "apalache-mc", "check"}, args...)
+	full = append(full, module+".tla")
+	cmd := exec.Command("timeout", full...)
+	cmd.Dir = dir
+	out, err := cmd.CombinedOutput()
+	if err != nil || !strings.Contains(string(out), "The outcome is: NoError") {
+		Infra("Apalache %s (%s): %v\n%s", module, what, err, tail(string(out), 15))
+	}
+	c.mu.Lock()
+	list, _ := c.Ev.Extra["apalache"].([]interface{})
+	c.Ev.Extra["apalache"] = append(list, map[string]interface{}{"module": module, "obligation": what,
+		"cmd": "apalache-mc check " + strings.Join(args, " ") + " " + module + ".tla", "outcome": "NoError", "wall_s": time.Since(t0).Seconds()})
+	c.mu.Unlock()
+	c.Note("Apalache %s %s: NoError (%.1fs)", module, what, time.Since(t0).Seconds())
 }
